@@ -46,10 +46,10 @@ type extras struct {
 type Ext struct {
 	dsn.Info
 	extras
-	A     string `json:"a" multiref:"alpha,al"`
+	A     string `json:"a" multiref:"alpha,al,"` // (an alias list may end in a comma: the empty element names nothing)
 	P     int    `json:"p" multiref:"pint"`
 	Flag  bool   `json:"flag" multiref:"f"`
-	Note  string `json:"note,omitempty"` // json tags may carry options: the key is the name in front of them
+	Note  string `json:"note,omitempty" multiref:""` // json tags may carry options: the key is the name in front of them; an empty alias list names nothing
 	Count int    `json:"count,string"`
 	On    bool   `json:"on,omitempty"`
 }
